@@ -56,6 +56,12 @@ func (fv *FuncVerifier) execStmt(st *State, s ast.Stmt) {
 	if s.Pos().IsValid() {
 		fv.curPos = s.Pos()
 	}
+	defer func() {
+		switch s.(type) {
+		case *ast.ExprStmt, *ast.AssignStmt, *ast.DeclStmt, *ast.IncDecStmt:
+			fv.flushAsserts(st)
+		}
+	}()
 	switch s := s.(type) {
 	case *ast.BlockStmt:
 		fv.execBlock(st, s.List)
@@ -432,8 +438,10 @@ func (fv *FuncVerifier) execIf(st *State, s *ast.IfStmt) {
 	c.T = fv.namePC(c.T)
 	thenSt := st.clone()
 	thenSt.pc = fv.namePC(and(st.pc, c.T))
+	fv.branch(thenSt)
 	elseSt := st.clone()
 	elseSt.pc = fv.namePC(and(st.pc, not(c.T)))
+	fv.branch(elseSt)
 	fv.execBlock(thenSt, s.Body.List)
 	if s.Else != nil {
 		fv.execStmt(elseSt, s.Else)
@@ -514,6 +522,7 @@ func (fv *FuncVerifier) execSwitch(st *State, s *ast.SwitchStmt, label string) {
 		cond = fv.namePC(cond)
 		br := rest.clone()
 		br.pc = fv.namePC(and(rest.pc, cond))
+		fv.branch(br)
 		fv.execBlock(br, cl.Body)
 		outs = append(outs, br)
 		rest.pc = fv.namePC(and(rest.pc, not(cond)))
@@ -573,6 +582,7 @@ func (fv *FuncVerifier) execTypeSwitch(st *State, s *ast.TypeSwitchStmt) {
 		cond = fv.namePC(cond)
 		br := rest.clone()
 		br.pc = fv.namePC(and(rest.pc, cond))
+		fv.branch(br)
 		if o, ok := fv.info().Implicits[cl].(*types.Var); ok {
 			if single != nil {
 				vals := fv.typeAssert(br, v, single, true, "typeswitch")
@@ -724,6 +734,7 @@ type loopParts struct {
 	post   func(st *State)
 	pos    token.Pos
 	idxVar string // name usable in invariants for the hidden counter
+	afterHavoc func(st *State)
 }
 
 func (fv *FuncVerifier) execFor(st *State, s *ast.ForStmt, label string) {
@@ -831,6 +842,14 @@ func (fv *FuncVerifier) execRange(st *State, s *ast.RangeStmt, label string) {
 			fv.assign2(st, keyObj, nv.T)
 		}
 	}
+	lp.afterHavoc = func(st *State) {
+		c := st.ghost[cname]
+		st.ghost["idx"] = c
+		fv.assume(st, "(<= 0 "+c.T+")")
+		if keyObj != nil {
+			fv.assign2(st, keyObj, c.T)
+		}
+	}
 	fv.execLoop(st, lp)
 	delete(st.ghost, cname)
 }
@@ -846,6 +865,9 @@ func (fv *FuncVerifier) rangeHavoc(st *State, s *ast.RangeStmt) {
 	fv.execBlock(tmp, s.Body.List)
 	fv.loops = fv.loops[:len(fv.loops)-1]
 	fv.assumes = fv.assumes[:saveAssumes]
+	if len(fv.atags) > saveAssumes {
+		fv.atags = fv.atags[:saveAssumes]
+	}
 	fv.quiet--
 	fv.havocDiff(st, before, append([]*State{tmp}, append(lc.breaks, lc.conts...)...))
 }
@@ -893,6 +915,11 @@ func (fv *FuncVerifier) havocDiff(st *State, before *State, after []*State) (var
 		st.heaps[h] = fv.fresh(h, fv.eng.sc.heaps[h])
 		heaps = append(heaps, h)
 	}
+	defer func() {
+		for _, h := range heaps {
+			fv.heapClosure(h, st.heaps[h], st.alloc)
+		}
+	}()
 	for g := range changedG {
 		if strings.HasPrefix(g, "$") {
 			continue
@@ -935,6 +962,7 @@ func (fv *FuncVerifier) execLoop(st *State, lp *loopParts) {
 	saveAssumes, saveObl := len(fv.assumes), len(fv.obls)
 	saveOrd := fv.loopOrd
 	saveUns := len(fv.unsupp)
+	saveCallOcc, saveSiteOcc := copyIntMap(fv.callOcc), copyIntMap(fv.siteOcc)
 	tmp := st.clone()
 	lc := &loopCtx{label: lp.label}
 	fv.loops = append(fv.loops, lc)
@@ -949,14 +977,22 @@ func (fv *FuncVerifier) execLoop(st *State, lp *loopParts) {
 	fv.loops = fv.loops[:len(fv.loops)-1]
 	fv.restoreFrameRets(saveFrames)
 	fv.assumes = fv.assumes[:saveAssumes]
+	if len(fv.atags) > saveAssumes {
+		fv.atags = fv.atags[:saveAssumes]
+	}
 	fv.obls = fv.obls[:saveObl]
 	fv.loopOrd = saveOrd
 	fv.unsupp = fv.unsupp[:saveUns]
+	fv.callOcc, fv.siteOcc = saveCallOcc, saveSiteOcc
+	fv.pendingAsserts = nil
 	fv.quiet--
 	afters := append([]*State{tmp, tmp2}, lc.breaks...)
 	afters = append(afters, lc.conts...)
 	afters = append(afters, fv.frameRetStatesSince(saveFrames)...)
 	_, heaps := fv.havocDiff(st, before, afters)
+	if lp.afterHavoc != nil {
+		lp.afterHavoc(st)
+	}
 	// frame facts for havocked heaps relative to function entry
 	for _, h := range heaps {
 		fv.assumeLoopFrame(st, h, before)
@@ -976,8 +1012,10 @@ func (fv *FuncVerifier) execLoop(st *State, lp *loopParts) {
 	c := fv.namePC(lp.cond(st))
 	bodySt := st.clone()
 	bodySt.pc = fv.namePC(and(st.pc, c))
+	fv.branch(bodySt)
 	exitSt := st
 	exitSt.pc = fv.namePC(and(st.pc, not(c)))
+	fv.branch(exitSt)
 	var decBefore string
 	if spec != nil && spec.Decreases != nil {
 		decBefore = fv.ownEnvAt(bodySt, &errs, lp.pos).eval(spec.Decreases).T
@@ -1053,4 +1091,33 @@ func (fv *FuncVerifier) assumeLoopFrame(st *State, h string, before *State) {
 	for _, p := range partial {
 		fv.assume(st, p)
 	}
+}
+
+// flushAsserts proves and then assumes the intermediate assertions attached to call sites of the statement.
+func (fv *FuncVerifier) flushAsserts(st *State) {
+	if len(fv.pendingAsserts) == 0 || st.dead {
+		fv.pendingAsserts = nil
+		return
+	}
+	keys := fv.pendingAsserts
+	fv.pendingAsserts = nil
+	var errs []string
+	for _, key := range keys {
+		for i, cl := range fv.contract.Asserts[key] {
+			g := fv.ownEnvAt(st, &errs, fv.curPos).eval(cl.Expr)
+			fv.oblige(st, "assert", fmt.Sprintf("after %s [%s] %s", key, clauseName(cl, i), cl.Text), g.T)
+			fv.assume(st, g.T)
+		}
+	}
+	if len(errs) > 0 {
+		fv.unsupported("spec errors in assert: " + strings.Join(errs, "; "))
+	}
+}
+
+func copyIntMap(m map[string]int) map[string]int {
+	out := make(map[string]int, len(m))
+	for k, v := range m {
+		out[k] = v
+	}
+	return out
 }
